@@ -47,6 +47,7 @@ func TestC16(t *testing.T) {
 		}
 		workloads.Extra(r, r.Rand(fmt.Sprintf("extra/%d", round)), nil)
 	}
+	workloads.EthRealSeal(r, r.Rand("eth-realseal"), nil)
 	m.Report()
 	r.Eval(int(r.Get("executions_compared")))
 	for k, v := range m.Entry {
